@@ -47,6 +47,120 @@ class _Canon(ast.NodeTransformer):
         return node
 
 
+def function_keys(modname, tree):
+    """(key, FunctionDef) for every module-level function and every method; a property's getter / setter / deleter and
+    repeated definitions of one name get distinct keys"""
+    out = []
+    seen = {}
+
+    def key_of(prefix, n):
+        kind = ""
+        for d in n.decorator_list:
+            if isinstance(d, ast.Attribute) and d.attr in ("setter", "deleter", "getter"):
+                kind = "#" + d.attr
+        k = "%s.%s%s" % (prefix, n.name, kind)
+        seen[k] = seen.get(k, 0) + 1
+        return k if seen[k] == 1 else "%s#%d" % (k, seen[k])
+    for n in tree.body:
+        if isinstance(n, (ast.FunctionDef, ast.AsyncFunctionDef)):
+            out.append((key_of(modname, n), n))
+        elif isinstance(n, ast.ClassDef):
+            for m in n.body:
+                if isinstance(m, (ast.FunctionDef, ast.AsyncFunctionDef)):
+                    out.append((key_of(modname + "." + n.name, m), m))
+    return out
+
+
+_CONFIRMED = None
+
+
+def confirmed_table():
+    global _CONFIRMED
+    if _CONFIRMED is None:
+        _CONFIRMED = {}
+        if not os.environ.get("MENPOLINT_NO_CONFIRMED"):
+            path = os.path.join(os.path.dirname(os.path.abspath(__file__)), "confirmed.json")
+            try:
+                import json
+                with open(path) as f:
+                    _CONFIRMED = json.load(f).get("functions", {})
+            except Exception:
+                _CONFIRMED = {}
+    return _CONFIRMED
+
+
+def signature_index(trees):
+    """callable name -> positional parameter names, from the *current* tree: module-level functions by bare name, classes by
+    name (their own __init__, without self), ('Class', 'method') for explicit base calls.  Ambiguous names are dropped."""
+    idx = {}
+
+    def put(k, params):
+        if k in idx and idx[k] != params:
+            idx[k] = None
+        else:
+            idx[k] = params
+
+    def params_of(fn, skip_self):
+        a = fn.args
+        if a.vararg is not None or a.posonlyargs:
+            return None
+        ps = [x.arg for x in a.args]
+        return ps[1:] if skip_self else ps
+    for tree in trees:
+        for n in tree.body:
+            if isinstance(n, (ast.FunctionDef, ast.AsyncFunctionDef)):
+                put(n.name, params_of(n, False))
+            elif isinstance(n, ast.ClassDef):
+                for m_ in n.body:
+                    if isinstance(m_, (ast.FunctionDef, ast.AsyncFunctionDef)):
+                        decs = [dotted(d.func if isinstance(d, ast.Call) else d) for d in m_.decorator_list]
+                        if m_.name == "__init__":
+                            put(n.name, params_of(m_, True))
+                        if "staticmethod" not in decs and "property" not in decs:
+                            put((n.name, m_.name), params_of(m_, True))
+    return {k: v for k, v in idx.items() if v is not None}
+
+
+def substitute_equivalent(modname, tree, sigs=None):
+    """Replace every function whose canonical form equals the one recorded for the confirmed tree by the confirmed
+    spelling (see canon.py).  Returns the list of (key, lineno) substituted.  The current source decides: a function
+    that is not provably the same computation is left exactly as it is."""
+    table = confirmed_table()
+    if not table:
+        return []
+    from . import canon
+    keyed = function_keys(modname, tree)
+    new_mod_helpers = {n.name: n for k, n in keyed if k not in table and k.count(".") == modname.count(".") + 1 and n.name.startswith("_")}
+    done = []
+    containers = {id(n): tree.body for n in tree.body}
+    for c in tree.body:
+        if isinstance(c, ast.ClassDef):
+            for m in c.body:
+                containers[id(m)] = c.body
+    for key, node in keyed:
+        ent = table.get(key)
+        if ent is None or ent.get("canon") is None:
+            continue
+        if ast.unparse(node) == ent["src"]:
+            continue
+        body = containers[id(node)]
+        meth_helpers = {}
+        if body is not tree.body:
+            prefix = key.rsplit(".", 1)[0]
+            meth_helpers = {n.name: n for k, n in keyed if k not in table and k.rsplit(".", 1)[0] == prefix and n.name.startswith("_") and n is not node}
+        try:
+            c = canon.digest(canon.canonical(node, new_mod_helpers, meth_helpers, sigs))
+        except Exception:
+            continue
+        if c != ent["canon"]:
+            continue
+        new = ast.parse(ent["src"]).body[0]
+        ast.increment_lineno(new, node.lineno - getattr(new, "lineno", 1))
+        body[body.index(node)] = new
+        done.append((key, node.lineno))
+    return done
+
+
 class Module:
     def __init__(self, name, path, relpath, src, is_pkg):
         self.name = name
@@ -55,7 +169,14 @@ class Module:
         self.src = src
         self.is_pkg = is_pkg
         self.raw_tree = ast.parse(src, filename=path)  # as written (used for in-memory edits)
-        self.tree = _Canon().visit(ast.parse(src, filename=path))
+        self.tree = None
+        self.substituted = []
+
+    def finish(self, sigs=None):
+        """second phase (all modules are parsed): recognise rewritten functions, canonical polarity, indexes"""
+        tree = ast.parse(self.src, filename=self.path)
+        self.substituted = substitute_equivalent(self.name, tree, sigs)
+        self.tree = _Canon().visit(tree)
         for n in ast.walk(self.tree):
             for c in ast.iter_child_nodes(n):
                 c._parent = n
@@ -292,6 +413,9 @@ class Project:
         for rel in self.overrides:
             if rel not in self.by_relpath:
                 raise AnalysisError("override for unknown file %s" % rel)
+        self.sigs = signature_index([m.raw_tree for m in self.modules.values()])
+        for m in self.modules.values():
+            m.finish(self.sigs)
 
     def _index(self):
         for m in self.modules.values():
